@@ -233,6 +233,35 @@ def _check_slot(res, cls, slot, vname, build, s):
     except Exception as e:
         got = False
         err = e
+    if not got and not want and slot == 'interface':
+        # the same name once more after it has become a *known* interface
+        # name (declared locally - declarations are not validated - or
+        # learnt from a peer's introspection data): still not constructible
+        from mcx import fakes
+        from txdbus import interface as I
+        with fakes.KnownInterfaces():
+            try:
+                I.DBusInterface(s, I.Method('M', '', ''))
+                known = s in I.DBusInterface.knownInterfaces
+            except Exception:
+                known = False
+            if known:
+                res.count('evaluations')
+                try:
+                    msg = build(s)
+                    got = True
+                except Exception as e:
+                    err = e
+                if got:
+                    res.violation(
+                        'C18/ctor/%s.%s/carries-invalid-known-interface/%s'
+                        % (cls, slot, _shape(s)),
+                        'after an interface named %r was declared locally, '
+                        '%s(%s=%r) is constructed although %s rejects the '
+                        'name' % (s, cls, slot, s, vname),
+                        {'kind': 'ctor', 'cls': cls, 'slot': slot,
+                         'string': s}, size=len(s))
+                    return
     if got and not want:
         res.violation('C18/ctor/%s.%s/carries-invalid/%s'
                       % (cls, slot, _shape(s)),
